@@ -45,6 +45,8 @@ KIND = {
     "R14.8": "W",
     "R06.9": "T",
     "R07.11": "W",
+    "R18.12": "S",
+    "R17.7": "W",
     "SELF": "self-validation of the checker on single-edit variants of the current tree",
 }
 NAMES = {"S": "structural / dataflow analysis of the resolved program (all inputs)",
